@@ -167,6 +167,19 @@ def ob_pure_simulation():
                         if isinstance(base, ast.Subscript) and _is_self_attr(base.value) and base.value.attr == "__zOld":
                             raise Refuted(f"InElastic.{m} writes in place into a committed state array (line {stmt.lineno})", signature=f"pure:simu:{m}:inplace", replay=_replay_simulation())
         # the committed arrays may only be handed to the behavior (Integrate / Compute_*), which C19.pure.behavior shows does not write them
+    # the committed and the trial dictionaries never alias: every binding of either is a fresh dictionary (literal or comprehension), so that the item stores of
+    # Construct_local_matrix_system into the trial dictionary cannot reach the committed one
+    for m, fn in meths.items():
+        for stmt in ast.walk(fn):
+            if not isinstance(stmt, ast.Assign):
+                continue
+            for t in stmt.targets:
+                for tt, vv in (zip(t.elts, stmt.value.elts) if isinstance(t, ast.Tuple) and isinstance(stmt.value, ast.Tuple) else [(t, stmt.value)]):
+                    if _is_self_attr(tt) and tt.attr in ("__z", "__zOld"):
+                        n += 1
+                        if not isinstance(vv, (ast.Dict, ast.DictComp)):
+                            raise Refuted(f"InElastic.{m} binds self.{tt.attr} to `{ast.unparse(vv)}` (line {stmt.lineno}): not a fresh dictionary, the trial and the committed state may share storage "
+                                          f"and a Newton iteration then overwrites the committed history", signature=f"pure:simu:{m}:alias", replay=_replay_restore())
     # Save_Iter must copy the trial state
     sv = ast.unparse(meths["Save_Iter"])
     n += 1
@@ -799,16 +812,40 @@ def _simulation_run(cfg):
         simu.Save_Iter()
         after = committed()
         out.append(dict(before=before, mid1=mid1, mid2=mid2, after=after, trial=trial, r1=r1, r2=r2))
+    # restore an earlier iteration, then solve another load step WITHOUT saving: the restored committed state must survive the Newton iterations,
+    # and replaying the load of the next stored step must reproduce that stored step
+    stored1 = {str(k): np.asarray(v).copy() for k, v in simu.results[1]["state"].items()} if hasattr(simu, "results") else None
+    simu.Set_Iter(0)
+    restored = committed()
+    simu.Bc_Init()
+    simu.add_dirichlet(n0, [0, 0], ["x", "y"])
+    simu.add_dirichlet(nL, [0.012], ["x"])
+    simu.Solve()
+    after_solve = committed()
+    trial = {str(k): np.asarray(v).copy() for k, v in simu._InElastic__z.items()}
+    out.append(dict(restore=True, restored=restored, after_solve=after_solve, trial=trial, stored_next=out[1]["after"]))
     return out
 
 
 def ob_simulation(cfg):
     import contextlib, io
-    with contextlib.redirect_stdout(io.StringIO()):
-        runs = _simulation_run(cfg)
+    try:
+        with contextlib.redirect_stdout(io.StringIO()):
+            runs = _simulation_run(cfg)
+    except (AssertionError, ValueError, IndexError, KeyError, FloatingPointError) as ex:
+        # the scenario (three small load steps, restore, one more step) solves on the unchanged tree: an exception here comes from the simulation itself
+        raise Refuted(f"{cfg_name(cfg)}: the load / save / restore / solve scenario raises {type(ex).__name__}: {str(ex)[:160]}", signature=f"simulation:raises:{cfg_name(cfg)}", replay=dict(confirmed=True))
     def same(a, b):
         return a.keys() == b.keys() and all(np.array_equal(a[k], b[k]) for k in a)
     anyp = False
+    rr = runs.pop()
+    if not same(rr["restored"], rr["after_solve"]):
+        raise Refuted("after Set_Iter(0), a Solve() without Save_Iter changed the restored committed state (the trial state shares storage with it)", signature="simulation:restore:solve",
+                      replay=dict(confirmed=True))
+    worst = max(float(np.abs(rr["trial"][k] - rr["stored_next"][k]).max()) for k in rr["trial"])
+    if worst > 1e-9:
+        raise Refuted(f"replaying the load of step 1 from restored iteration 0 does not reproduce the stored state of step 1 (max difference {worst:.3e})", signature="simulation:restore:replay",
+                      replay=dict(confirmed=True, diff=worst))
     for i, r in enumerate(runs):
         # the zero state may be created lazily: compare contents where present
         if r["before"] and not same(r["before"], r["mid1"]):
@@ -851,6 +888,16 @@ def _replay_pure():
         viol, stats, _ = run_path(dict(surface="VonMises", hardening="Linear", kinematic="AF"), 0, check_tangent=False)
         bad = [v for v in viol if "modified" in v or "second Integrate" in v]
         return dict(confirmed=bool(bad), violations=viol[:3])
+    except Exception as e:
+        return dict(confirmed=False, raised=repr(e)[:300])
+
+
+def _replay_restore():
+    try:
+        ob_simulation(dict(surface="VonMises", hardening="Linear", dim=2))
+        return dict(confirmed=False)
+    except Refuted as r:
+        return dict(confirmed="restore" in str(r) or "replay" in str(r), native=str(r)[:300])
     except Exception as e:
         return dict(confirmed=False, raised=repr(e)[:300])
 
